@@ -149,13 +149,19 @@ func (c *BlockCache) Iterate(callback func(*types.Block) bool) {
 	c.lock.Lock()
 	defer c.lock.Unlock()
 
+	kept := c.cache[:0]
 	for _, blocks := range c.cache {
 		for _, v := range blocks.Blocks {
 			if callback(v) {
 				delete(blocks.Blocks, v.Hash())
 			}
 		}
+		// drop a height the callback emptied (as Remove does), so that FirstHeight and len(c.cache) only see cached blocks
+		if len(blocks.Blocks) > 0 {
+			kept = append(kept, blocks)
+		}
 	}
+	c.cache = kept
 }
 
 // Clear clear blocks of block'Height <= height
